@@ -26,8 +26,8 @@
 EXTENDS Integers, Sequences, FiniteSets, TLC, TLCExt, Json, IOUtils
 
 Batch == JsonDeserialize(IOEnv.VERIF_BATCH)
-VARIABLES rec, l, phase, aimed, armed, after, cmds, dropped, inAll, added, pendingAim, maybe, lax, stopKind, stopName, st
-vars == <<rec, l, phase, aimed, armed, after, cmds, dropped, inAll, added, pendingAim, maybe, lax, stopKind, stopName, st>>
+VARIABLES rec, l, phase, aimed, armed, after, cmds, dropped, inAll, added, pendingAim, maybe, lax, stopKind, stopName, st, cut
+vars == <<rec, l, phase, aimed, armed, after, cmds, dropped, inAll, added, pendingAim, maybe, lax, stopKind, stopName, st, cut>>
 R == Batch[rec]
 Ev == R.ev
 Runs == 1..R.nruns
@@ -36,12 +36,12 @@ MaxUs == R.max_us
 
 Say(ok, why, r) == PrintT(ToJson([id |-> R.id, ok |-> ok, why |-> why, at |-> l, run |-> r]))
 Stop(ok, why, r) == Say(ok, why, r) /\ st' = (IF ok THEN "done" ELSE "rej")
-                    /\ UNCHANGED <<rec, l, phase, aimed, armed, after, cmds, dropped, inAll, added, pendingAim, maybe, lax, stopKind, stopName>>
-Adv == l' = l + 1 /\ UNCHANGED <<rec, st>>
+                    /\ UNCHANGED <<rec, l, phase, aimed, armed, after, cmds, dropped, inAll, added, pendingAim, maybe, lax, stopKind, stopName, cut>>
+Adv == l' = l + 1 /\ UNCHANGED <<rec, st, cut>>
 
 Init == /\ rec \in 1..Len(Batch) /\ l = 1 /\ st = "run"
         /\ phase = [r \in Runs |-> "new"] /\ aimed = {} /\ armed = {} /\ after = [r \in Runs |-> 0]
-        /\ cmds = [r \in Runs |-> 0] /\ dropped = {} /\ inAll = FALSE /\ added = {} /\ pendingAim = {} /\ maybe = {} /\ lax = {} /\ stopKind = "" /\ stopName = ""
+        /\ cmds = [r \in Runs |-> 0] /\ dropped = {} /\ inAll = FALSE /\ added = {} /\ pendingAim = {} /\ maybe = {} /\ lax = {} /\ stopKind = "" /\ stopName = "" /\ cut = {}
 
 Live == {r \in Runs : phase[r] = "started"}
 \* the runs a stop request is aimed at: the one executing now - for stop_job only if it has that name
@@ -69,8 +69,13 @@ Step ==
                       /\ lax' = IF stopKind \in {"current", "all"} \/ (stopKind = "job" /\ R.names[e.r] = stopName)
                                  THEN lax \cup {e.r} ELSE lax
                       /\ UNCHANGED <<after, cmds, dropped, inAll, added, pendingAim, maybe, stopKind, stopName>>
+          [] e.e = "delay_ret" ->                 \* a timed delay or time-of-day wait of run e.r returned; early: before it was due
+                 /\ cut' = IF e.early THEN cut \cup {e.r} ELSE cut
+                 /\ l' = l + 1
+                 /\ UNCHANGED <<rec, st, phase, aimed, armed, after, cmds, dropped, inAll, added, pendingAim, maybe, lax, stopKind, stopName>>
           [] e.e = "cmd" ->
                  IF phase[e.r] # "started" THEN Stop(FALSE, "a device command from a run that is not executing", e.r)
+                 ELSE IF e.r \in cut THEN Stop(FALSE, "NoCommandAfterCutDelay: a stop ended a delay of this run early and a device command followed", e.r)
                  ELSE IF e.r \in armed /\ after[e.r] >= 1
                       THEN Stop(FALSE, "AtMostOneMore: a second device command after the stop request returned", e.r)
                  ELSE /\ cmds' = [cmds EXCEPT ![e.r] = @ + 1]
